@@ -14,7 +14,9 @@ Archive.tla member part (+ ArchiveGen, ArchiveTrace).
 4. ArchiveGen -> member lists over doc / emptyFile / corrupt / dir / hidden / fork / nested / unsup are
    built as ZIP (stored, deflated), TAR (plain, gz, bz2, xz) and 7z (copy, LZMA, LZMA2, mixed x solid,
    one folder per file, mixed x plain / encoded header), one member corrupted at a time (flipped payload
-   byte, bad CRC, unsupported method, truncated stream, broken document); the results
+   byte, bad CRC, unsupported method, truncated stream, broken document) and the packer parameters that
+   change the container framing drawn per archive (deflate level; tar header format USTAR / GNU / PAX; bz2
+   block size; gzip level + mtime / FNAME / FEXTRA / FCOMMENT; xz preset + check type); the results
    [(filename, file_path, digest id)] are compared by TLC (ArchiveTrace) with the direct extraction of
    every member's bytes.
 """
@@ -30,6 +32,7 @@ from concurrent.futures import ThreadPoolExecutor
 from pathlib import Path
 
 from .. import PY, REPO, VERIF
+from ..c09_lib import pack_params
 from ..repo import child_env
 from ..tlaval import iter_dump
 from ..tlc import MachineryError, run_tlc
@@ -255,21 +258,23 @@ def _variants(c, rng, thorough):
     if fmt == "zip":
         for method in ("stored", "deflated"):
             if j is None:
-                out.append({"method": method})
+                out.append({"method": method, "pack": pack_params("zip", "", rng)})
             else:
                 kinds = ["flip", "crc", "method", "baddoc"]
                 for what in (kinds if thorough else rng.sample(kinds, 2)):
-                    out.append({"method": method, "corrupt": [j, what]})
+                    out.append({"method": method, "corrupt": [j, what], "pack": pack_params("zip", "", rng)})
     elif fmt == "tar":
         for comp in ("", "gz", "bz2", "xz"):
             if not ms and comp == "":
                 continue            # DON'T-CARE: a plain tar without members is 10240 NUL bytes, undetectable
             if j is None:
-                out.append({"comp": comp})
+                out.append({"comp": comp, "pack": pack_params("tar", comp, rng)})
+                if thorough:          # a second, independently drawn packer parameter set
+                    out.append({"comp": comp, "pack": pack_params("tar", comp, rng)})
             else:
-                out.append({"comp": comp, "corrupt": [j, "baddoc"]})
+                out.append({"comp": comp, "corrupt": [j, "baddoc"], "pack": pack_params("tar", comp, rng)})
                 if comp == "":
-                    out.append({"comp": comp, "corrupt": [j, "flip"]})
+                    out.append({"comp": comp, "corrupt": [j, "flip"], "pack": pack_params("tar", comp, rng)})
     else:
         combos = [(cd, lay, enc) for cd in ("copy", "lzma", "lzma2", "mixed") for lay in ("solid", "perfile", "mixed")
                   for enc in (False, True)]
